@@ -70,14 +70,24 @@ def check_features(case, ctx):
     eps = EPS[dtype_name(dtype)]
     feats, lin = all_features(case, deriv, dtype)
     maturity = (Tn - 1) * ul.dt
-    with torch.no_grad():
-        for name, f in feats:
-            f = f.of(deriv)
+    bound = [(name, f.of(deriv)) for name, f in feats]
+
+    def compare_all(rnd):
+        for name, f in bound:
             with ctx.sut("C03/feature/" + name):
                 full = f.get(None)
             if not ctx.check(full.dim() == 3 and full.shape[:2] == (N, Tn), "C03/feature/shape",
                              f"{name}.get(None) has shape {tuple(full.shape)}, expected ({N},{Tn},F)", feature=name):
                 continue
+            if rnd > 0:
+                # the same bound feature object after a new simulation must see the new paths, like a fresh one
+                fresh = dict(all_features(case, deriv, dtype)[0])[name] if name != "ModuleOutput" else None
+                if fresh is not None:
+                    with ctx.sut("C03/feature/" + name):
+                        ff = fresh.of(deriv).get(None)
+                    if not ctx.check(bool(((ff == full) | (ff.isnan() & full.isnan())).all()), "C03/feature/stale-after-resimulate",
+                                     f"{name}.get(None) of a feature bound before a second simulate() differs from a fresh feature", feature=name):
+                        continue
             idxs = list(range(Tn))
             if name in ("time_to_maturity", "expiry_time"):
                 idxs += list(range(-Tn, 0))
@@ -100,10 +110,19 @@ def check_features(case, ctx):
                 diff = (one - col).abs()
                 ok = ((diff <= tol) | (one == col) | (one.isnan() & col.isnan())).all()
                 if not ctx.check(bool(ok), "C03/feature/stepwise-vs-batched",
-                                 f"{name}.get({i}) differs from get(None)[:, [{i}]]: max diff {float(diff.nan_to_num(0).max()):.3e}",
+                                 f"round {rnd}: {name}.get({i}) differs from get(None)[:, [{i}]]: max diff {float(diff.nan_to_num(0).max()):.3e}",
                                  feature=name, step=i, one=one.flatten()[:6], col=col.flatten()[:6]):
                     break
-            ctx.cls("feature:" + name)
+            if rnd == 0:
+                ctx.cls("feature:" + name)
+
+    with torch.no_grad():
+        compare_all(0)
+        # second simulation of the same derivative object with the same number of paths (a new training batch)
+        torch.manual_seed(case["sim_seed"] + 1)
+        with ctx.sut("C03/simulate"):
+            deriv.simulate(n_paths=case["n_paths"])
+        compare_all(1)
     ctx.nontrivial(Tn >= 3)
     ctx.cls("deriv:" + case["deriv"]["type"], "ul:" + case["ul"]["type"], "T:%s" % ("1-2" if Tn < 3 else "3+"))
 
